@@ -40,6 +40,8 @@ def symbols(binp):
         if name in ("main.markBegin", "main.markEnd"):
             marks[name] = a
             continue
+        if name in ("runtime.morestack", "runtime.morestack_noctxt", "runtime.morestack_noctxt.abi0", "runtime.morestack.abi0"):
+            marks.setdefault("morestack", []).append((a, a + sz))
         if name.startswith(RT_ALLOW) or not name.startswith(RT_SKIP_PREFIX):
             rs.append((a, a + sz, name))
     rs.sort()
@@ -89,7 +91,7 @@ def trace(binp, args):
     os.close(fd)
     p = subprocess.run(["valgrind", "--tool=lackey", "--trace-mem=yes", "--log-file=" + logf, binp] + args, stderr=subprocess.DEVNULL, stdout=subprocess.PIPE, text=True, env=env)
     try:
-        return _parse(logf, rs, starts, b, e, p.stdout, p.returncode)
+        return _parse(logf, rs, starts, b, e, p.stdout, p.returncode, marks.get("morestack", []))
     finally:
         try:
             os.remove(logf)
@@ -97,11 +99,14 @@ def trace(binp, args):
             pass
 
 
-def _parse(logf, rs, starts, b, e, out, rc):
+def _parse(logf, rs, starts, b, e, out, rc, morestack=()):
+    msat = set()  # indices k such that runtime.morestack ran between kept pc k-1 and kept pc k
+    ms_pending = False
     nb = 0
     active = False
     cur = False
     pcs = []
+    syms = []  # index into rs of the symbol of each kept pc
     mem = []  # (index into pcs, kind, addr, size)
     funcs = {}
     for line in open(logf, errors="replace"):
@@ -126,9 +131,15 @@ def _parse(logf, rs, starts, b, e, out, rc):
             i = bisect.bisect_right(starts, pc) - 1
             cur = i >= 0 and pc < rs[i][1]
             if cur:
+                if ms_pending:
+                    msat.add(len(pcs))
+                    ms_pending = False
                 pcs.append(pc)
+                syms.append(i)
                 n = rs[i][2]
                 funcs[n] = funcs.get(n, 0) + 1
+            elif any(lo <= pc < hi for lo, hi in morestack):
+                ms_pending = True
         elif cur and c == ' ':
             k = line[1]
             try:
@@ -136,7 +147,42 @@ def _parse(logf, rs, starts, b, e, out, rc):
                 mem.append((len(pcs) - 1, k, int(a, 16), int(s)))
             except ValueError:
                 pass
-    return {"pcs": pcs, "mem": mem, "funcs": funcs, "out": (out or "").strip(), "rc": rc, "windows": nb}
+    pcs, mem, nfix = normalize(pcs, syms, mem, rs, msat)
+    return {"pcs": pcs, "mem": mem, "funcs": funcs, "out": (out or "").strip(), "rc": rc, "windows": nb, "prologue_reexecutions_removed": nfix}
+
+
+def normalize(pcs, syms, mem, rs, msat):
+    """Removes the trace of cooperative pre-emptions / stack growth inside the window.
+
+    When the Go scheduler asks a goroutine to yield (time based, cannot be switched off) or the stack has to
+    grow, the stack check in a function prologue branches to the function's morestack stub, the runtime runs
+    (filtered out), and the function is re-entered from its first instruction.  In the filtered trace this
+    shows as the entry PC of function f being executed while the previously recorded PC also belongs to f,
+    with runtime.morestack having run in between (all three conditions are required).
+    The first, aborted, execution of the prologue together with the stub is deleted, so that the trace is the
+    one an undisturbed execution produces."""
+    out_pcs, out_syms, keep_from = [], [], []  # keep_from[j] = original index of out_pcs[j]
+    nfix = 0
+    for k, pc in enumerate(pcs):
+        sy = syms[k]
+        if out_pcs and pc == rs[sy][0] and out_syms[-1] == sy:
+            # roll back to the previous execution of this entry PC (contiguous stretch inside f)
+            j = len(out_pcs) - 1
+            while j >= 0 and out_syms[j] == sy and out_pcs[j] != pc:
+                j -= 1
+            # ... and only if runtime.morestack really ran inside the stretch to be dropped (a loop whose header
+            # is the first instruction of a frameless leaf function must not be mistaken for a re-entry)
+            if j >= 0 and out_syms[j] == sy and out_pcs[j] == pc and len(out_pcs) - j <= 64 and any(keep_from[j] < x <= k for x in msat):
+                del out_pcs[j:], out_syms[j:], keep_from[j:]
+                nfix += 1
+        out_pcs.append(pc)
+        out_syms.append(sy)
+        keep_from.append(k)
+    if nfix == 0:
+        return pcs, mem, 0
+    remap = {orig: new for new, orig in enumerate(keep_from)}
+    out_mem = [(remap[m[0]], m[1], m[2], m[3]) for m in mem if m[0] in remap]
+    return out_pcs, out_mem, nfix
 
 
 def symname(binp, pc):
